@@ -30,11 +30,25 @@ pub fn check(c: &Case) -> CheckResult {
         // the message parser under a generated filter configuration (both conversion paths), both storage modes
         if let Some((f, borrowed)) = &c.gen_filter {
             let cfg = f.to_crate();
-            let pf = if *borrowed { dlt_core::filtering::ProcessedDltFilterConfig::from(&cfg) } else { dlt_core::filtering::ProcessedDltFilterConfig::from(cfg) };
+            let pf = if *borrowed {
+                dlt_core::filtering::ProcessedDltFilterConfig::from(&cfg)
+            } else {
+                dlt_core::filtering::ProcessedDltFilterConfig::from(cfg)
+            };
             for storage in [false, true] {
-                let what = format!("dlt_message(storage={}, generated filter {:?}, borrowed conversion {})", storage, f, borrowed);
-                let res = crate::util::guard(|| dlt_core::parse::dlt_message(&c.buf, Some(&pf), storage).map(|(_, pm)| pm))
-                    .map_err(|p| Violation::from_panic(&format!("{} on {}", what, crate::util::hex_short(&c.buf)), &p))?;
+                let what = format!(
+                    "dlt_message(storage={}, generated filter {:?}, borrowed conversion {})",
+                    storage, f, borrowed
+                );
+                let res = crate::util::guard(|| {
+                    dlt_core::parse::dlt_message(&c.buf, Some(&pf), storage).map(|(_, pm)| pm)
+                })
+                .map_err(|p| {
+                    Violation::from_panic(
+                        &format!("{} on {}", what, crate::util::hex_short(&c.buf)),
+                        &p,
+                    )
+                })?;
                 if let Ok(dlt_core::parse::ParsedMessage::Item(m)) = &res {
                     oracle::use_message(m, &what)?;
                 }
@@ -47,15 +61,43 @@ pub fn check(c: &Case) -> CheckResult {
 }
 
 pub fn signal_types() -> BoxedStrategy<Vec<RType>> {
-    vec((g::kind(), any::<bool>(), any::<bool>(), g::scod()).prop_map(|(kind, vari, trai, scod)| RType { kind, vari, trai, scod }), 0..10).boxed()
+    vec(
+        (g::kind(), any::<bool>(), any::<bool>(), g::scod()).prop_map(
+            |(kind, vari, trai, scod)| RType {
+                kind,
+                vari,
+                trai,
+                scod,
+            },
+        ),
+        0..10,
+    )
+    .boxed()
 }
 
 pub fn strategy() -> impl Strategy<Value = Case> {
-    (any::<bool>(), 0u8..8, prop::bool::weighted(0.3), any::<u8>(), signal_types(), any::<bool>(), prop::option::weighted(0.5, (super::c04::filter(), any::<bool>()))).prop_flat_map(
-        |(storage, filter, format_logs, size_sel, types, big_endian, gen_filter)| {
-            gb::hostile(storage).prop_map(move |buf| Case { buf, filter, format_logs, size_sel, types: types.clone(), big_endian, gen_filter: gen_filter.clone() })
-        },
+    (
+        any::<bool>(),
+        0u8..8,
+        prop::bool::weighted(0.3),
+        any::<u8>(),
+        signal_types(),
+        any::<bool>(),
+        prop::option::weighted(0.5, (super::c04::filter(), any::<bool>())),
     )
+        .prop_flat_map(
+            |(storage, filter, format_logs, size_sel, types, big_endian, gen_filter)| {
+                gb::hostile(storage).prop_map(move |buf| Case {
+                    buf,
+                    filter,
+                    format_logs,
+                    size_sel,
+                    types: types.clone(),
+                    big_endian,
+                    gen_filter: gen_filter.clone(),
+                })
+            },
+        )
 }
 
 pub fn run(run: &Run) {
@@ -68,7 +110,13 @@ pub fn run(run: &Run) {
     );
     run.assume("a null logger at Trace level is installed so that the argument expressions of dlt-core's log calls are evaluated; panics are observed through catch_unwind, arithmetic overflow through overflow-checks=on");
     run.regressions(&replay);
-    run.random("entry-points", run.cases(300_000, 6_000_000), 0.4, strategy, check);
+    run.random(
+        "entry-points",
+        run.cases(300_000, 6_000_000),
+        0.4,
+        strategy,
+        check,
+    );
 }
 
 pub fn replay(section: &str, case: &Json) -> Option<CheckResult> {
